@@ -97,7 +97,7 @@ const vC08HistoryMenu = 8
 // vC08NondetGets: how many of the observed call's first sync.Pool.Get calls are nondeterministic.
 const vC08NondetGets = 4
 
-func vC08Case(nHist int, fieldMenu []int) {
+func vC08Case(nHist int, fieldMenu, ctxMenu, histMenu []int) {
 	cfg := vC08Cfg
 	encKind := vrt.Choice("enc", 2)
 	var enc Encoder
@@ -110,7 +110,7 @@ func vC08Case(nHist int, fieldMenu []int) {
 	_, ref := vNewRef() // the reference tree is not used here; only the fields are
 	sel := fieldMenu[vrt.Choice("field", len(fieldMenu))]
 	vLiteNow = true
-	ctx := vMakeField("c", []int{0, 16, 25}[vrt.Choice("ctx", 3)], "ck", ref, &cfg, 0)
+	ctx := vMakeField("c", ctxMenu[vrt.Choice("ctx", len(ctxMenu))], "ck", ref, &cfg, 0)
 	vLiteNow = len(fieldMenu) <= len(vLiteMenu)+1
 	f := vMakeField("b", sel, "k", ref, &cfg, 0)
 	vLiteNow = false
@@ -139,7 +139,7 @@ func vC08Case(nHist int, fieldMenu []int) {
 	first := runB() // pools are empty: nothing is reused
 	for i := 0; i < nHist; i++ {
 		// the history itself reuses pooled objects last-in-first-out; what it leaves in the pools is what matters
-		vC08History(vrt.Choice(fmt.Sprintf("hist%d", i), vC08HistoryMenu), fmt.Sprint(i))
+		vC08History(histMenu[vrt.Choice(fmt.Sprintf("hist%d", i), len(histMenu))], fmt.Sprint(i))
 	}
 	vrt.PoolNondetFirst(vrt.Pick(4, 6), vrt.Pick(3, 0))
 	vrt.ResetEvents()
@@ -155,13 +155,15 @@ func vC08Case(nHist int, fieldMenu []int) {
 }
 
 //verif: prop=C08 bounds="observed call: JSON or console ioCore with 1 context field (number, open namespace or reflected value) and 1 call-site field (lite menu: number, string, namespace, object, array, inline, failing marshalers; plus reflected values), 1 symbolic message letter, through Write or Check+Write; first on empty pools, then after 1 history operation from an 8-entry menu (long nested JSON entry with namespaces left open, reflected values, marshalers failing midway, console entry, 3-core checked entry with after-hook, error group, same-shaped call with other values) with each of the first 4 sync.Pool.Get calls of the observed call returning the newest pooled object, the oldest one or a new one (thorough: first 6 Gets, any pooled object), later ones and the history itself reusing last-in-first-out: byte-identical output"
-func VC08History1() { vC08Case(1, append(append([]int{}, vLiteMenu...), 25)) }
+func VC08History1() {
+	vC08Case(1, append(append([]int{}, vLiteMenu...), 25), []int{0, 16, 25}, []int{0, 1, 2, 3, 4, 5, 6, 7})
+}
 
-//verif: prop=C08 tier=thorough bounds="as VC08History1 with the full 26-template field menu"
-func VC08History1Full() { vC08Case(1, vFullMenu) }
+//verif: prop=C08 tier=thorough bounds="as VC08History1 with the full 26-template field menu (all inner variants), a numeric context field and the history menu {long nested JSON entry, console entry, same-shaped call}"
+func VC08History1Full() { vC08Case(1, vFullMenu, []int{0}, []int{1, 4, 7}) }
 
-//verif: prop=C08 tier=thorough bounds="two history operations before the observed call (lite field menu)"
-func VC08History2() { vC08Case(2, vLiteMenu) }
+//verif: prop=C08 tier=thorough bounds="two history operations from {reflected values, console entry, 3-core checked entry with hook, same-shaped call} before the observed call (lite field menu)"
+func VC08History2() { vC08Case(2, vLiteMenu, []int{0, 25}, []int{2, 4, 5, 7}) }
 
 func vCountEvents(prefix string) int {
 	n := 0
